@@ -51,7 +51,7 @@ class Universe:
 
     def __init__(self, desc: dict):
         self.desc = desc
-        self.modname = f"vp_models_{next(_counter)}"
+        self.modname = f"vp_models_{next(_counter):07d}x"  # no name is a prefix of another (models_package uses startswith)
         self.module = types.ModuleType(self.modname)
         sys.modules[self.modname] = self.module
         self.classes: dict[str, type] = {}
